@@ -7,6 +7,8 @@
 (* Verdict (total): never raises; copying helpers leave the input graph    *)
 (* unchanged; the result equals the spec's Run (nodes, order, every        *)
 (* argument position); and the spec's result satisfies C19OK for this g.   *)
+(* h = "table" (growth item): analysis.graph_to_dataframe on the float-only *)
+(* graph equals Prune!RowsOf of the spec's float-only graph.               *)
 (***************************************************************************)
 EXTENDS Prune, Json, IOUtils
 Traces == JsonDeserialize(IOEnv.TRACE_FILE)
@@ -17,11 +19,31 @@ ToArg(a) == IF a[1] = "l" THEN <<"l", [k \in 1 .. Len(a[2]) |-> ToArg(a[2][k])]>
 ToNode(n) == [id |-> n.id, op |-> n.op, tgt |-> n.tgt,
               args |-> [k \in 1 .. Len(n.args) |-> ToArg(n.args[k])],
               kw |-> [k \in 1 .. Len(n.kw) |-> <<n.kw[k][1], ToArg(n.kw[k][2])>>],
-              float |-> n.float, fwd |-> <<n.fwd[1], n.fwd[2]>>, bwd |-> <<n.bwd[1], n.bwd[2]>>]
+              float |-> n.float, req |-> n.req, fwd |-> <<n.fwd[1], n.fwd[2]>>, bwd |-> <<n.bwd[1], n.bwd[2]>>]
 ToGraph(js) == [k \in 1 .. Len(js) |-> ToNode(js[k])]
 Shape(g) == [k \in 1 .. Len(g) |-> <<g[k].id, g[k].tgt, g[k].args, g[k].kw>>]
 
+\* h = "table": graph_to_dataframe(prune_non_float_tensors(g)); t.rows = [id, weight, dir, type, val, name_ok, others_ok]
+\* (id: the node whose clean name the row carries; others_ok: the remaining metric columns equal the node's Metrics)
+TableVerdict(t) ==
+  LET g == ToGraph(t.g)
+      r == Run(g, "non_float", <<0, 1>>, {})
+      exp == RowsOf(r.g)
+      bad(P(_, _)) == \E k \in 1 .. Len(exp) : ~P(t.rows[k], exp[k])
+  IN IF ~WellFormed(g) THEN "harness_input_graph_malformed"
+     ELSE IF r.err # "" THEN "spec_result_violates_C19"
+     ELSE IF t.err # "" THEN "table_raised"
+     ELSE IF Len(t.rows) # Len(exp) THEN "table_row_count"
+     ELSE IF bad(LAMBDA o, e : o.id = e.id /\ o.name_ok) THEN "table_wrong_node_or_order"
+     ELSE IF bad(LAMBDA o, e : o.dir = e.dir) THEN "table_direction"
+     ELSE IF bad(LAMBDA o, e : o.weight = e.weight) THEN "table_weight_flag"
+     ELSE IF bad(LAMBDA o, e : o.type = e.type) THEN "table_tensor_type"
+     ELSE IF bad(LAMBDA o, e : <<o.val[1], o.val[2]>> = e.val) THEN "table_metric_value"
+     ELSE IF bad(LAMBDA o, e : o.others_ok) THEN "table_other_metrics"
+     ELSE "ok"
+
 Verdict(t) ==
+  IF t.h = "table" THEN TableVerdict(t) ELSE
   LET g == ToGraph(t.g)
       tg == {t.targets[k] : k \in 1 .. Len(t.targets)}
       r == Run(g, t.h, <<t.rtol[1], t.rtol[2]>>, tg)
